@@ -30,6 +30,8 @@ func runC05(c *Ctx) {
 	if saveBlock == nil || rmBlock == nil || procV == nil || del == nil || commit == nil || revert == nil || cacheFn == nil {
 		return
 	}
+	// removed blocks requested as temporary blocks stay retrievable until they are re-applied
+	checkParkedBlocksSurvive(c, "C05.R9 parked-blocks-survive")
 
 	// ---- R1 key-family symmetry
 	checkKeyFamilySymmetry(c, "C05.R1", saveBlock, rmBlock)
